@@ -19,6 +19,15 @@ def _sync_lock():
         shutil.copy(src, os.path.join(KANI_DIR, 'Cargo.lock'))
 
 
+def module_of(name):
+    """module (file stem) of /verif/kani/src that defines harness `name`"""
+    for f in sorted(os.listdir(os.path.join(KANI_DIR, 'src'))):
+        if f.endswith('.rs') and f != 'lib.rs':
+            if re.search(r'fn %s\s*\(' % re.escape(name), open(os.path.join(KANI_DIR, 'src', f)).read()):
+                return f[:-3]
+    raise Inconclusive('kani harness %s not found in /verif/kani/src' % name)
+
+
 def parse_results(text):
     """-> {harness: {'verdict':..., 'time':..., 'failed_checks': [...], 'covers': {...}}}"""
     res = {}
@@ -56,8 +65,8 @@ def run(run, pid, harnesses, jobs=8, total_timeout=900, extra_args=(), mem_gb=12
         while pending and len(running) < jobs:
             h = pending.pop(0)
             lp = os.path.join(engine.CACHE, 'kani-%s-%s.log' % (pid, h['name']))
-            cmd = 'ulimit -v %d; exec cargo kani --target-dir %s --harness %s --exact %s' % (
-                lim_kb, tgt, h['name'], ' '.join(list(extra_args) + list(h.get('args', []))))
+            cmd = 'ulimit -v %d; exec cargo kani --target-dir %s --harness %s::%s --exact %s' % (
+                lim_kb, tgt, module_of(h['name']), h['name'], ' '.join(list(extra_args) + list(h.get('args', []))))
             f = open(lp, 'w')
             p = subprocess.Popen(['bash', '-c', cmd], cwd=KANI_DIR, env=engine.ENV, stdout=f, stderr=subprocess.STDOUT)
             running.append((h, p, f, lp, time.time()))
@@ -91,7 +100,7 @@ def _classify(run, pid, h, txt, rc, dt):
     if 'unwinding assertion' in txt and re.search(r'unwinding assertion[^\n]*\n[^\n]*\n?', txt) and re.search(r'Failed Checks: unwinding assertion', txt):
         v = 'UNWIND'
     failed = re.findall(r'Failed Checks: ([^\n]*)', txt)
-    covers = re.findall(r'Status: (SATISFIED|UNSATISFIABLE|UNREACHABLE)\s*\n\s*- Description: "([^"]*)"', txt)
+    covers = re.findall(r'Check \d+: [^\n]*\.cover\.\d+\s*\n\s*- Status: (SATISFIED|UNSATISFIABLE|UNREACHABLE)\s*\n\s*- Description: "([^"]*)"', txt)
     tm = re.search(r'Verification Time: ([\d.]+)s', txt)
     rec = {'harness': name, 'role': role, 'verdict': v, 'wall_s': round(dt, 1), 'cbmc_s': float(tm.group(1)) if tm else None,
            'failed_checks': failed[:6], 'covers': [{'status': s, 'what': d} for s, d in covers][:8],
@@ -121,7 +130,7 @@ def _handle_failure(run, pid, h, txt, failed):
     """Counterexample: obtain concrete values (concrete playback), run them natively, report only what reproduces."""
     name = h['name']
     tgt = os.path.join(engine.CACHE, 'target-kani-%s' % pid)
-    cmd = ['cargo', 'kani', '--target-dir', tgt, '--harness', name, '--exact', '-Z', 'concrete-playback', '--concrete-playback=print'] + list(h.get('args', []))
+    cmd = ['cargo', 'kani', '--target-dir', tgt, '--harness', '%s::%s' % (module_of(name), name), '--exact', '-Z', 'concrete-playback', '--concrete-playback=print'] + list(h.get('args', []))
     try:
         p = subprocess.run(cmd, cwd=KANI_DIR, env=engine.ENV, capture_output=True, text=True, timeout=h.get('timeout', 900) + 120)
         out = p.stdout + p.stderr
@@ -138,13 +147,7 @@ def _handle_failure(run, pid, h, txt, failed):
     if os.path.exists(scratch):
         shutil.rmtree(scratch)
     shutil.copytree(KANI_DIR, scratch, ignore=shutil.ignore_patterns('target'))
-    mod = h.get('module')
-    if not mod:
-        # find the module file that defines the harness
-        for f in os.listdir(os.path.join(scratch, 'src')):
-            if re.search(r'fn %s\s*\(' % re.escape(name), open(os.path.join(scratch, 'src', f)).read()):
-                mod = f
-                break
+    mod = module_of(name) + '.rs'
     path = os.path.join(scratch, 'src', mod)
     with open(path, 'a') as fh:
         fh.write('\n' + test_src + '\n')
